@@ -3,7 +3,7 @@
 From Coq Require Import ZArith Bool List.
 From Chibicc Require Import Spec.C11Int Model.ConstFold Proofs.ConstFoldProofs
      Model.X86Int Model.CodegenInt Gen.CastTable Proofs.CastTableProofs Proofs.CodegenIntProofs
-     Model.ExprGen Proofs.ExprGenProofs.
+     Model.ExprGen Proofs.ExprGenProofs Model.ExprFlat Proofs.ExprFlatProofs.
 Import ListNotations.
 Local Open Scope Z_scope.
 
@@ -89,3 +89,11 @@ Example C01_expr_nonvacuous : eval demo_tree = Some 1 /\
   option_map (fun st => (rax (fst st), snd st)) (grun (compile demo_tree) ({| rax := 77; rdi := 78; rdx := 79; rcx := 80; f_zf := false; f_cf := true; f_lt := false |}, [5; 6])) = Some (1, [5; 6]).
 Proof. split; vm_compute; reflexivity. Qed.
 Print Assumptions C01_expr_nonvacuous.
+
+(* ... and so does the jump-level code gen_expr actually prints (labels of && || ?: as positions),
+   placed anywhere in a larger program *)
+Theorem C01_expr_code_correct : forall e v, eval e = Some v ->
+  forall P p, fembedded P p (gflatten (compile e) p) ->
+  forall s k, exists s', fstar P (p, (s, k)) ((p + fsize (compile e))%nat, (s', k)) /\ R (type_of e) v (rax s').
+Proof. exact expr_code_correct. Qed.
+Print Assumptions C01_expr_code_correct.
